@@ -257,6 +257,223 @@ impl IntoBoxErr for Error {}
 """
 
 
+SRVIO = r"""
+// ---- the accept loop (io_stream.rs): tokio / futures / pin-project as it uses them ----
+// A-tokio-10: a JoinSet is known by what each of its tasks may yield: spawning adds the promise of that future, nothing else does
+#[verifier::reject_recursive_types(T)]
+pub struct JoinSet<T> { pub promises: Ghost<Seq<spec_fn(T) -> bool>> }
+impl<T> JoinSet<T> {
+    #[verifier::external_body]
+    pub fn new() -> (r: Self) ensures r.promises@.len() == 0 { unimplemented!() }
+    #[verifier::external_body]
+    pub fn spawn<F: Future<Output = T>>(&mut self, task: F)
+        ensures final(self).promises@ == old(self).promises@.push(|v: T| task.awaited() && task@ == v)
+    { unimplemented!() }
+}
+// A-core-40: Context::waker().wake_by_ref() asks to be polled again: no effect on any value here
+pub struct Waker { pub x: u8 }
+impl Context {
+    #[verifier::external_body] pub fn waker(&self) -> (r: &Waker) { unimplemented!() }
+}
+impl Waker { #[verifier::external_body] pub fn wake_by_ref(&self) { unimplemented!() } }
+pub enum ControlFlow<B, C = ()> { Continue(C), Break(B) }
+// the listener: a stream of accepted connections (tokio_stream::Stream<Item = Result<IO, IE>>), polled through its pin
+pub trait Incoming { type IO; type IE; fn poll_next(&mut self, cx: &mut Context) -> (r: Poll<Option<Result<Self::IO, Self::IE>>>); }
+pub struct PinMutS<'a, S> { pub p: &'a mut S }
+impl<'a, S> PinMutS<'a, S> {
+    pub fn poll_next<IO, IE>(self, cx: &mut Context) -> (r: Poll<Option<Result<IO, IE>>>) where S: Incoming<IO = IO, IE = IE> { self.p.poll_next(cx) }
+}
+// A-pinproject-12: pin-project's projection of ServerIoStream (field-wise reborrow); Pin::as_mut is a reborrow
+#[verifier::reject_recursive_types(IO)]
+pub struct ServerIoStreamProj<'a, S, IO> { pub inner: PinMutS<'a, S>, pub state: &'a mut Option<State<IO>> }
+impl<S: Incoming<IO = IO, IE = IE>, IO, IE> ServerIoStream<S, IO, IE> {
+    #[verifier::external_body]
+    pub fn project(&mut self) -> (r: ServerIoStreamProj<'_, S, IO>)
+        ensures *r.state == old(self).state, *final(r.state) == final(self).state
+    { unimplemented!() }
+    pub fn as_mut(&mut self) -> (r: &mut Self) ensures *r == *old(self), *final(r) == *final(self) { self }
+}
+// A-derive-05: #[derive(Clone)] on TlsAcceptor (dropped with the attributes): the same acceptor
+impl Clone for TlsAcceptor { #[verifier::external_body] fn clone(&self) -> (r: Self) ensures r == *self { unimplemented!() } }
+// tonic's handle_tcp_accept_error (which accept errors are fatal): an opaque call, nothing is assumed of its answer
+#[verifier::external_body]
+pub fn handle_tcp_accept_error<E>(e: E) -> ControlFlow<BoxError> { unimplemented!() }
+// what the property says of a connection a TLS server hands to the HTTP stack: it is a TLS stream whose handshake ran under
+// the configured acceptor (so client certificates were checked as TlsAcceptor::new set it up, A1-A3)
+pub open spec fn made_by<IO>(tls: TlsAcceptor, v: Result<ServerIo<IO>, BoxError>) -> bool {
+    v matches Ok(io) ==> (io matches ServerIo::TlsIo(s) && s.session.config@ == tls.inner.t)
+}
+impl<S: Incoming<IO = IO, IE = IE>, IO, IE> ServerIoStream<S, IO, IE> {
+    // every handshake task in flight was started with this stream's acceptor
+    pub open spec fn wf(&self) -> bool {
+        self.state matches Some(st) ==> forall|i: int, v: Result<ServerIo<IO>, BoxError>| 0 <= i < st.1.promises@.len() && #[trigger] st.1.promises@[i](v) ==> made_by(st.0, v)
+    }
+}
+// A-tonic-select-01: tonic's `select` (tokio::select! over the listener and the handshake tasks: not expressible here, its text
+// is pinned by a guard), created and polled once: a finished connection is one some task in the set yielded, and polling
+// adds no task
+#[verifier::external_body]
+pub fn verif_poll_select<S, IO, IE>(incoming: &mut PinMutS<'_, S>, tasks: &mut JoinSet<Result<ServerIo<IO>, BoxError>>, cx: &mut Context) -> (r: Poll<SelectOutput<IO>>)
+    where S: Incoming<IO = IO, IE = IE>
+    ensures
+        forall|i: int| 0 <= i < final(tasks).promises@.len() ==> exists|j: int| 0 <= j < old(tasks).promises@.len() && #[trigger] old(tasks).promises@[j] == #[trigger] final(tasks).promises@[i],
+        r matches Poll::Ready(SelectOutput::Io(io)) ==> exists|i: int| 0 <= i < old(tasks).promises@.len() && #[trigger] old(tasks).promises@[i](Ok(io)),
+{ unimplemented!() }
+"""
+
+SELECT_TEXT = """async fn select<IO: 'static, IE>( incoming: &mut (impl Stream<Item = Result<IO, IE>> + Unpin), tasks: &mut JoinSet<Result<ServerIo<IO>, crate::BoxError>>, ) -> SelectOutput<IO> where IE: Into<crate::BoxError>, { let incoming_stream_future = async { match incoming.try_next().await { Ok(Some(stream)) => SelectOutput::Incoming(stream), Ok(None) => SelectOutput::Done, Err(e) => SelectOutput::TcpErr(e.into()), } }; if tasks.is_empty() { return incoming_stream_future.await; } tokio::select! { stream = incoming_stream_future => stream, accept = tasks.join_next() => { match accept.expect("JoinSet should never end") { Ok(Ok(io)) => SelectOutput::Io(io), Ok(Err(e)) => SelectOutput::TlsErr(e), Err(e) => SelectOutput::TlsErr(e.into()), } } } }"""
+
+
+def server_io(u):
+    """tonic/src/transport/server/io_stream.rs: the accept loop.  With a TLS acceptor configured, nothing reaches the HTTP stack
+    but streams whose handshake completed under that acceptor."""
+    IO = 'tonic/src/transport/server/io_stream.rs'
+    SI = 'tonic/src/transport/server/service/io.rs'
+    be = [lambda t: t.sub_code('R12', r'crate::BoxError', 'BoxError')]
+    # this unit shadows `Box` for Box::pin (the connector); here the real one is meant
+    stdbox = [lambda t: t.sub_code('R12', r'\bBox(<|::new)', r'std::boxed::Box\1')]
+    u.item(SI, 'enum', 'ServerIo', edits=stdbox)
+    u.item(IO, 'struct', 'State', edits=be + [lambda t: t.sub_code('R7', r'\(TlsAcceptor, JoinSet', '(pub TlsAcceptor, pub JoinSet')], attrs=['#[verifier::reject_recursive_types(IO)]'])
+    u.item(IO, 'struct', 'ServerIoStream', attrs=['#[verifier::reject_recursive_types(IO)]', '#[verifier::reject_recursive_types(IE)]'], edits=[lambda t: t.sub_code('R12', r'S: Stream<Item = Result<IO, IE>>,', 'S: Incoming<IO = IO, IE = IE>,')])
+    u.item(IO, 'enum', 'SelectOutput', edits=be)
+    u.fn_guard(IO, 'select', SELECT_TEXT, why='A-tonic-select-01')
+    u.raw(SRVIO)
+    u._emit('impl<IO> ServerIo<IO> {'); u._open_header = 'impl<IO> ServerIo<IO> {'
+    u.fn(SI, 'new_io', within='impl<IO> ServerIo<IO>', display='ServerIo::new_io', ensures=[Clause('O1_a_plain_connection', 'r == ServerIo::Io(io)')])
+    u.fn(SI, 'new_tls_io', within='impl<IO> ServerIo<IO>', display='ServerIo::new_tls_io', body_edits=stdbox, ensures=[Clause('O2_the_tls_stream_it_was_given', 'r matches ServerIo::TlsIo(s) && *s == io')])
+    u.close('}')
+    # R28: the handshake task handed to JoinSet::spawn, lifted into an async fn of the two variables it captures
+    src = read_src(IO)
+    code = vxlib.code_mask(src)
+    m = re.search(r'tasks\.spawn\(async move \{', src)
+    if not m:
+        raise Infra('%s: `tasks.spawn(async move {` not found' % IO)
+    bo = m.end() - 1
+    bend = vxlib.match_brace(src, code, bo)
+    if not src[bend:].lstrip().startswith(');'):
+        raise Infra('%s: the spawn call does not end with `});`' % IO)
+    block = src[bo:bend]
+    stmt_end = src.index(');', bend) + 2
+    task = '\nasync fn verif_accept_task<IO: AsyncRead + AsyncWrite + Unpin>(tls: TlsAcceptor, stream: IO) -> Result<ServerIo<IO>, crate::BoxError> ' + block + '\n'
+    hoisted = src[:m.start()] + 'tasks.spawn(verif_accept_task(tls, stream));' + src[stmt_end:] + task
+    V = IO + '#R28'
+    saved_ov = getattr(vxlib.TLS, 'override', None)
+    ov = dict(saved_ov or {})
+    ov[V] = hoisted
+    vxlib.TLS.override = ov
+    u.rewrites.append(dict(item='ServerIoStream::poll_next', rule='R28', old='tasks.spawn(async move { .. });', new='tasks.spawn(verif_accept_task(tls, stream));  + async fn verif_accept_task(tls, stream) { .. }'))
+    try:
+        u.fn(V, 'verif_accept_task', display='ServerIoStream::poll_next::accept_task', sig_edits=be, body_edits=be,
+             ensures=[Clause('K1_the_task_yields_a_connection_only_after_a_handshake_under_its_acceptor', 'made_by(tls, r)')])
+        W = 'impl<S, IO, IE> ServerIoStream<S, IO, IE>'
+        hdr = 'impl<S: Incoming<IO = IO, IE = IE>, IO: AsyncRead + AsyncWrite + Unpin, IE: Into<BoxError>> ServerIoStream<S, IO, IE> {'
+        u._emit(hdr); u._open_header = hdr
+        u.fn(V, 'new', within=W, display='ServerIoStream::new', sig_edits=be,
+             closures={0: dict(params='tls: TlsAcceptor', ret='(x: State<IO>)', ensures=['x.0 == tls', 'x.1.promises@.len() == 0'])},
+             ensures=[Clause('K2_the_stream_accepts_with_the_configured_acceptor_or_not_at_all',
+                             'r.wf() && (match tls { Some(t) => r.state matches Some(st) && st.0 == t, None => r.state is None })')])
+        u.fn(V, 'poll_next_without_tls', within=W, display='ServerIoStream::poll_next_without_tls', sig_edits=be, body_edits=be,
+             ensures=[Clause('K3_the_acceptor_state_is_untouched', 'final(self).state == old(self).state'),
+                      Clause('K4_plain_connections', 'r matches Poll::Ready(Some(Ok(io))) ==> io is Io', props=[])])
+        u.fn(V, 'poll_next', within='impl<S, IO, IE> Stream for ServerIoStream<S, IO, IE>', nth=1, display='ServerIoStream::poll_next',
+             sig_edits=be + [lambda t: t.sub_code('R9', r'Self::Item', 'Result<ServerIo<IO>, BoxError>')],
+             body_edits=be + [lambda t: t.sub_code('R32', r'pin!\(select\(&mut projected\.inner, tasks\)\)\.poll\(cx\)', 'verif_poll_select(&mut projected.inner, tasks, cx)')],
+             requires=['old(self).wf()'],
+             ensures=[Clause('K5_with_an_acceptor_configured_only_connections_that_completed_a_handshake_under_it_are_handed_on',
+                             'old(self).state matches Some(st) ==> (r matches Poll::Ready(Some(Ok(io))) ==> (io matches ServerIo::TlsIo(s) && s.session.config@ == st.0.inner.t))'),
+                      Clause('K6_the_acceptor_never_changes_and_every_task_in_flight_uses_it',
+                             'final(self).wf() && (match old(self).state { Some(st) => final(self).state matches Some(st2) && st2.0 == st.0, None => final(self).state is None })')])
+        u.close('}')
+    finally:
+        vxlib.TLS.override = saved_ov
+
+
+CHAIN = r"""
+// ---- from the accepted connection to the request a handler sees (service/io.rs) ----
+pub mod http {
+    use super::*;
+    // http::Request as far as the ConnectInfo service touches it
+    pub struct Request<B> { pub extensions: Extensions, pub body: B }
+    impl<B> Request<B> {
+        pub fn extensions_mut(&mut self) -> (r: &mut Extensions) ensures *r == old(self).extensions, *final(r) == final(self).extensions, final(self).body == old(self).body { &mut self.extensions }
+    }
+}
+// A-derive-06: #[derive(Clone)] on TcpConnectInfo / TlsConnectInfo (dropped with the attributes): the same value
+impl Clone for TcpConnectInfo { #[verifier::external_body] fn clone(&self) -> (r: Self) ensures r == *self { unimplemented!() } }
+impl<T: Clone> Clone for TlsConnectInfo<T> { #[verifier::external_body] fn clone(&self) -> (r: Self) ensures r == *self { unimplemented!() } }
+// tower_layer::Layer / tower_service::Service with a ghost member: what one `call` does with the request it is handed
+// (each implementation states it; a caller of a generic service sees only that)
+pub trait Layer<S> { type Service; fn layer(&self, inner: S) -> Self::Service; }
+pub trait Service<Request>: Sized {
+    type Response; type Error; type Future;
+    spec fn call_post(pre: Self, post: Self, req: Request) -> bool;
+    fn poll_ready(&mut self, cx: &mut Context) -> Poll<Result<(), Self::Error>>;
+    fn call(&mut self, req: Request) -> (r: Self::Future) ensures Self::call_post(*old(self), *final(self), req);
+}
+// what C15 says of the ConnectInfo service: on a TLS connection the wrapped service is handed the request with that
+// connection's TlsConnectInfo in its extensions (body untouched); on a plain one the TLS entry is left as it came
+pub open spec fn carries_info<IO: Connected<ConnectInfo = TcpConnectInfo>, B>(ci: ServerIoConnectInfo<IO>, req: http::Request<B>, q: http::Request<B>) -> bool {
+    q.body == req.body && (match ci { ServerIoConnectInfo::TlsIo(i) => q.extensions.tls_info == Some(i), ServerIoConnectInfo::Io(i) => q.extensions.tls_info == req.extensions.tls_info })
+}
+"""
+
+
+def peer_chain(u):
+    """tonic/src/transport/server/service/io.rs: ServerIo::connect_info and the ConnectInfo service: every request served on a
+    TLS connection carries that connection's TlsConnectInfo (hence the verified peer certificates) in its extensions."""
+    SI = 'tonic/src/transport/server/service/io.rs'
+    CN = 'tonic/src/transport/server/conn.rs'
+    u.raw(CHAIN)
+    u.item(SI, 'enum', 'ServerIoConnectInfo')
+    u.item(SI, 'struct', 'ConnectInfoLayer')
+    u.item(SI, 'struct', 'ConnectInfo')
+    u._emit('impl<T> TlsConnectInfo<T> {'); u._open_header = 'impl<T> TlsConnectInfo<T> {'
+    u.fn(CN, 'get_ref', within='impl<T> TlsConnectInfo<T>', display='TlsConnectInfo::get_ref', ensures=[Clause('P3_the_inner_connection_info', '*r == self.inner')])
+    u.fn(CN, 'get_mut', within='impl<T> TlsConnectInfo<T>', display='TlsConnectInfo::get_mut',
+         ensures=[Clause('P4_the_inner_connection_info_and_nothing_else_can_be_changed_through_it', '*r == old(self).inner && *final(r) == final(self).inner && final(self).certs == old(self).certs')])
+    u.close('}')
+    hdr = 'impl<IO: Connected> ServerIo<IO> {'
+    u._emit(hdr); u._open_header = hdr
+    u.fn(SI, 'connect_info', within='impl<IO> ServerIo<IO>', display='ServerIo::connect_info',
+         ensures=[Clause('O3_the_connect_info_of_a_tls_connection_is_the_one_its_tls_stream_reports',
+                         'match *self { ServerIo::Io(io) => r matches ServerIoConnectInfo::Io(i) && io.info_ok(i), ServerIo::TlsIo(s) => r matches ServerIoConnectInfo::TlsIo(i) && (*s).info_ok(i) }')])
+    u.close('}')
+    # the listener's own connect info is TcpConnectInfo in this unit (the Extensions model names the entries it holds)
+    tcp = 'IO: Connected<ConnectInfo = TcpConnectInfo>'
+    u.fn(SI, 'clone', within='impl<IO: Connected> Clone for ServerIoConnectInfo<IO>', header='impl<%s> Clone for ServerIoConnectInfo<IO> {' % tcp, close=True, vacuity=False,
+         display='ServerIoConnectInfo::clone', ensures=[Clause('O4_the_same_connect_info', 'r == *self')])
+    u._emit('impl<T> ConnectInfoLayer<T> {'); u._open_header = 'impl<T> ConnectInfoLayer<T> {'
+    u.fn(SI, 'new', within='impl<T> ConnectInfoLayer<T>', display='ConnectInfoLayer::new', ensures=[Clause('O5_the_layer_holds_the_connect_info', 'r.connect_info == connect_info')])
+    u.close('}')
+    u._emit('impl<S, T> ConnectInfo<S, T> {'); u._open_header = 'impl<S, T> ConnectInfo<S, T> {'
+    u.fn(SI, 'new', within='impl<S, T> ConnectInfo<S, T>', display='ConnectInfo::new', ensures=[Clause('O6_service_and_connect_info_as_given', 'r.inner == inner && r.connect_info == connect_info')])
+    u.close('}')
+    hdr = 'impl<S, T: Clone> Layer<S> for ConnectInfoLayer<T> {'
+    u._emit(hdr + '\n    type Service = ConnectInfo<S, T>;'); u._open_header = hdr
+    u.fn(SI, 'layer', within='impl<S, T> Layer<S> for ConnectInfoLayer<T>', display='ConnectInfoLayer::layer',
+         ensures=[Clause('O7_the_wrapped_service_carries_a_clone_of_the_connect_info', 'r.inner == inner && cloned(self.connect_info, r.connect_info)')])
+    u.close('}')
+    hdr = 'impl<S: Service<http::Request<ReqBody>>, %s, ReqBody> Service<http::Request<ReqBody>> for ConnectInfo<S, ServerIoConnectInfo<IO>> {' % tcp
+    u._emit(hdr + """
+    type Response = S::Response;
+    type Error = S::Error;
+    type Future = S::Future;
+    open spec fn call_post(pre: Self, post: Self, req: http::Request<ReqBody>) -> bool {
+        post.connect_info == pre.connect_info && exists|q: http::Request<ReqBody>| #[trigger] S::call_post(pre.inner, post.inner, q) && carries_info(pre.connect_info, req, q)
+    }"""); u._open_header = hdr
+    W = 'impl<S, IO, ReqBody> Service<http::Request<ReqBody>> for ConnectInfo<S, ServerIoConnectInfo<IO>>'
+    u.fn(SI, 'poll_ready', within=W, display='ConnectInfo::poll_ready')
+    u.fn(SI, 'call', within=W, display='ConnectInfo::call',
+         body_start='        let ghost req0 = req; let ghost pre = *self;',
+         body_edits=[lambda t: vxlib.r20_let_intro(t, 'self.inner.call(req)', 'verif_fut')],
+         hints=[('before', '{ let verif_fut = self.inner.call(req);', '        let ghost q0 = req;'),
+                ('after', '{ let verif_fut = self.inner.call(req);', '        proof { assert(S::call_post(pre.inner, self.inner, q0)); assert(carries_info(pre.connect_info, req0, q0)); }')],
+         ensures=[Clause('O8_every_request_on_a_tls_connection_carries_its_tls_connect_info_to_the_service',
+                         'exists|q: http::Request<ReqBody>| #[trigger] S::call_post(old(self).inner, final(self).inner, q) && carries_info(old(self).connect_info, req, q)'),
+                  Clause('O9_the_connect_info_stays', 'final(self).connect_info == old(self).connect_info')])
+    u.close('}')
+
+
 def build():
     u = Unit('tls', ['C15'])
     saved = set(vxlib.ENABLED_FEATURES)
@@ -435,10 +652,14 @@ pub open spec fn ca_roots(cs: Seq<Certificate>) -> Option<Seq<Root>> decreases c
     u.close('}')
     # ---- what the handler can see of the peer ----
     CN = 'tonic/src/transport/server/conn.rs'
-    u.item(CN, 'trait', 'Connected', edits=[lambda t: t.sub_code('R12', r"type ConnectInfo: Clone \+ Send \+ Sync \+ 'static;", 'type ConnectInfo;')])
+    # the trait gets a ghost member: what a connect info says about its connection (implementations state it; callers see only this)
+    u.item(CN, 'trait', 'Connected', edits=[lambda t: t.sub_code('R12', r"type ConnectInfo: Clone \+ Send \+ Sync \+ 'static;", 'type ConnectInfo;'),
+                                            lambda t: t.sub_code('contract', r'fn connect_info\(&self\) -> Self::ConnectInfo;', 'spec fn info_ok(&self, i: Self::ConnectInfo) -> bool;\n    fn connect_info(&self) -> (r: Self::ConnectInfo) ensures self.info_ok(r);')])
     u.item(CN, 'struct', 'TlsConnectInfo', edits=[lambda t: t.sub_code('R12', r"CertificateDer<'static>", 'CertificateDer')])
     hdr = 'impl<T> Connected for TlsStream<T>'
-    u._emit('impl<T: Connected> Connected for TlsStream<T> {\n    type ConnectInfo = TlsConnectInfo<T::ConnectInfo>;'); u._open_header = 'impl<T: Connected> Connected for TlsStream<T> {'
+    u._emit('impl<T: Connected> Connected for TlsStream<T> {\n    type ConnectInfo = TlsConnectInfo<T::ConnectInfo>;\n'
+            '    // what C15 says the handler may rely on: exactly the verified peer certificates, and the inner connection info\n'
+            '    open spec fn info_ok(&self, i: TlsConnectInfo<T::ConnectInfo>) -> bool { (i.certs is Some <==> self.session.peer is Some) && (i.certs matches Some(a) ==> a.t@ == self.session.peer->Some_0@) && self.io.info_ok(i.inner) }'); u._open_header = 'impl<T: Connected> Connected for TlsStream<T> {'
     u.fn(CN, 'connect_info', within=hdr,
          body_edits=[lambda t: t.sub_code('R17', r'certs\.to_owned\(\)\.into\(\)', 'verif_arc_vec(certs)')],
          closures={0: dict(params='certs: &[CertificateDer]', ret='(x: Arc<Vec<CertificateDer>>)', ensures=['x.t@ == certs@'])},
@@ -449,6 +670,8 @@ pub open spec fn ca_roots(cs: Seq<Certificate>) -> Option<Seq<Root>> decreases c
     u.fn(CN, 'peer_certs', within='impl<T> TlsConnectInfo<T>', sig_edits=[lambda t: t.sub_code('R12', r"CertificateDer<'static>", 'CertificateDer')],
          ensures=[Clause('P2_peer_certs_hands_them_out', 'r == self.certs')])
     u.close('}')
+    server_io(u)
+    peer_chain(u)
     # ---- the connector: https never falls back to plaintext (R28: the two nested async blocks of Connector::call, lifted) ----
     KN = 'tonic/src/transport/channel/service/connector.rs'
     ksrc = read_src(KN)
@@ -505,12 +728,22 @@ pub open spec fn ca_roots(cs: Seq<Certificate>) -> Option<Seq<Root>> decreases c
     u.raw('''
 // A-http-41: http::Extensions as a type map: get::<T>() is the entry stored under T, if any (only the entry this unit reads is modelled)
 pub struct TcpConnectInfo { pub id: Ghost<int> }
-pub struct Extensions { pub tls_info: Option<TlsConnectInfo<TcpConnectInfo>> }
-pub trait ExtItem: Sized { spec fn pick(e: Extensions) -> Option<Self>; }
-impl ExtItem for TlsConnectInfo<TcpConnectInfo> { open spec fn pick(e: Extensions) -> Option<Self> { e.tls_info } }
+pub struct Extensions { pub tls_info: Option<TlsConnectInfo<TcpConnectInfo>>, pub tcp_info: Option<TcpConnectInfo> }
+pub trait ExtItem: Sized { spec fn pick(e: Extensions) -> Option<Self>; spec fn put(e: Extensions, v: Self) -> Extensions; }
+impl ExtItem for TlsConnectInfo<TcpConnectInfo> {
+    open spec fn pick(e: Extensions) -> Option<Self> { e.tls_info }
+    open spec fn put(e: Extensions, v: Self) -> Extensions { Extensions { tls_info: Some(v), tcp_info: e.tcp_info } }
+}
+impl ExtItem for TcpConnectInfo {
+    open spec fn pick(e: Extensions) -> Option<Self> { e.tcp_info }
+    open spec fn put(e: Extensions, v: Self) -> Extensions { Extensions { tls_info: e.tls_info, tcp_info: Some(v) } }
+}
 impl Extensions {
     #[verifier::external_body]
     pub fn get<T: ExtItem>(&self) -> (r: Option<&T>) ensures r is Some <==> T::pick(*self) is Some, r matches Some(x) ==> T::pick(*self) == Some(*x) { unimplemented!() }
+    // ... and insert::<T>(v) stores v under T, leaving every other entry alone
+    #[verifier::external_body]
+    pub fn insert<T: ExtItem>(&mut self, v: T) -> (r: Option<T>) ensures *final(self) == T::put(*old(self), v) { unimplemented!() }
 }
 pub struct MetadataMap { pub id: Ghost<int> }
 ''')
